@@ -187,9 +187,14 @@ def _summary(prog, f, depth=0):
             out["limits"].append((bi, tuple(leaf_name(R.operand(a)) for a in t["args"][:2])))
         elif c == P + "from_record_data_type":
             out.setdefault("fallback", []).append(bi)
+            import names as nm
+            looked = nm.lookup_names(prog, f, R.operand(t["args"][0]))
+            for x in looked or []:
+                if isinstance(x, str) and x not in out["records"]:
+                    out["records"].append(x)
         elif c.startswith(P) and c.endswith("_from_pointcloud") and c != f.path and depth < 2:
             out["helpers"].append((bi, c, [R.operand(a) for a in t["args"]]))
-    for cl in prog.closures_of(f):
+    for cl in (prog.closures_of(f) if not out["records"] else []):
         Rc = Resolver(cl)
         for bi, t in cl.calls(lambda c, t: c.rsplit("::", 1)[-1] in ("eq", "ne")):
             for a in t["args"][:2]:
@@ -307,10 +312,17 @@ def type_ranges(ctx, prog, rule):
     Rg = Resolver(g)
     pairs = []
     for bi, t in g.calls(lambda c, t: c == P + "from_min_max"):
-        a, b = leaf_name(Rg.operand(t["args"][0])), leaf_name(Rg.operand(t["args"][1]))
-        pairs.append((a.replace(".Some.0", ""), b.replace(".Some.0", "")))
+        ta, tb = strip(Rg.operand(t["args"][0])), strip(Rg.operand(t["args"][1]))
+        if ta[0] == "phi" and tb[0] == "phi" and len(ta[1]) == len(tb[1]):
+            # one call fed by a match: the arms pair up (both values are fields of the same tuple per arm)
+            alts = list(zip(ta[1], tb[1]))
+        else:
+            alts = [(ta, tb)]
+        for xa, xb in alts:
+            a, b = leaf_name(xa), leaf_name(xb)
+            pairs.append((a.replace(".Some.0", ""), b.replace(".Some.0", "")))
     wantp = sorted([("arg1.Double.0", "arg2.Double.0"), ("arg1.Single.0", "arg2.Single.0"), ("arg1.Integer.0", "arg2.Integer.0")])
-    nones = [1 for bi, si, cls, p in g.ret_assignments() if cls == "ok" and strip(Rg.rvalue(p))[2][0][0] == "agg" and strip(Rg.rvalue(p))[2][0][1][2] == "None"]
+    nones = [1 for bi, si, cls, p in g.ret_assignments() if cls == "ok" and strip(Rg.rvalue(p))[2] and strip(Rg.rvalue(p))[2][0][0] == "agg" and strip(Rg.rvalue(p))[2][0][1][2] == "None"]
     ctx.ob(rule, "type-range/from_limits", sorted(pairs) == wantp and len(nones) == 1, "limit pairs accepted: %s, otherwise Ok(None) (%d)" % (sorted(pairs), len(nones)))
 
 
